@@ -93,6 +93,8 @@ func TestMain(m *testing.M) {
 	os.Exit(core.ExitCode())
 }
 
+var c18Constructs = []string{"vblock", "inline_closure", "bigint_op", "unit_lit", "unsafe_ref", "bti_call", "generic_decl", "generic_inst"}
+
 func gen(rt *rapid.T) any {
 	r := &Record{}
 	// (race build only: the tasks run one at a time, so without the detector a shared
@@ -107,6 +109,11 @@ func gen(rt *rapid.T) any {
 	n := rapid.IntRange(2, maxTasks).Draw(rt, "ntasks")
 	same := rapid.IntRange(0, 2).Draw(rt, "same_program") == 0
 	var first *prog.Program
+	common, commonArg := "", 0
+	if rapid.IntRange(0, 1).Draw(rt, "common_construct") == 0 {
+		common = rapid.SampledFrom(c18Constructs).Draw(rt, "common_kind")
+		commonArg = rapid.IntRange(0, 11).Draw(rt, "common_arg")
+	}
 	for i := 0; i < n; i++ {
 		var p *prog.Program
 		if same && first != nil {
@@ -119,7 +126,15 @@ func gen(rt *rapid.T) any {
 			first = p
 		}
 		t := TaskRec{Prog: p}
-		t.Front = gencommon.Front(rt, gencommon.FrontSpec{Faults: []string{"discard_ref", "abort_stmt", "abort_init", "callex_err"}, MaxFaults: 2, Constructs: []string{"vblock", "inline_closure", "bigint_op", "unit_lit", "unsafe_ref", "bti_call"}, FileAssign: false})
+		t.Front = gencommon.Front(rt, gencommon.FrontSpec{Faults: []string{"discard_ref", "abort_stmt", "abort_init", "callex_err"}, MaxFaults: 2, Constructs: c18Constructs, FileAssign: false})
+		if common != "" {
+			// every task of the record performs the same construct early in several bodies:
+			// package-level state that only one construct touches is reached by two tasks
+			// of one run (a race needs both)
+			for u := 0; u < 6; u++ {
+				t.Front.Faults = append(t.Front.Faults, run.Fault{Unit: u, Stmt: u % 2, Kind: common, Arg: commonArg + u})
+			}
+		}
 		t.Coarse = rapid.IntRange(0, 3).Draw(rt, "coarse") != 0
 		np := rapid.IntRange(0, 4).Draw(rt, "npre")
 		for j := 0; j < np; j++ {
